@@ -85,3 +85,45 @@ Definition enc_fracs (r : result (list fraction)) : list Z :=
   | Err e => [err_code e]
   | Ok fs => 0 :: Z.of_nat (length fs) :: flat_map enc_frac fs
   end.
+
+(** ---------- ComputedData encoding *)
+From RP2V Require Import Base.Assoc Model.Computed.
+
+Definition enc_dec (d : dec) : list Z := [fst d; snd d].
+Definition enc_odec (o : option dec) : list Z := match o with Some d => 1 :: enc_dec d | None => [0; 0; 0] end.
+Definition enc_list {A} (f : A -> list Z) (l : list A) : list Z := Z.of_nat (length l) :: flat_map f l.
+Definition enc_bool (b : bool) : Z := if b then 1 else 0.
+Definition enc_lot (o : option intx) : list Z := match o with Some l => [1; i_row l] | None => [0; 0] end.
+
+Definition enc_gl_full (period : Z) (x : gl * ((nat * nat) * option (nat * nat))) : list Z :=
+  let '(g, (evf, lotf)) := x in
+  t_row (g_ev g) :: enc_lot (g_lot g) ++ [g_amt g] ++ enc_odec (g_proceeds g) ++ enc_odec (g_cost g) ++ enc_odec (g_gain g)
+  ++ [enc_bool (g_long period g); Z.of_nat (fst evf); Z.of_nat (snd evf)]
+  ++ (match lotf with Some (i, n) => [1; Z.of_nat i; Z.of_nat n] | None => [0; 0; 0] end)
+  ++ enc_odec (gl_event_pct (g_ev g) (g_amt g)) ++ enc_odec (gl_lot_pct (g_ev g) (g_lot g) (g_amt g)).
+
+Definition enc_yline (l : yline) : list Z :=
+  [y_year l; ttype_code (y_type l); enc_bool (y_long l); y_crypto l] ++ enc_dec (y_fiat l) ++ enc_dec (y_cost l) ++ enc_dec (y_gain l).
+Definition enc_balance (b : balance) : list Z := [b_exch b; b_holder b; b_final b; b_acquired b; b_sent b; b_received b].
+
+Definition enc_computed (period : Z) (c : computed) : list Z :=
+  0 :: enc_list (fun e => [t_row e; t_class e; ttype_code (t_type e); enc_bool (t_is_earning e); t_balance_change e]) (cd_events c)
+  ++ enc_list (enc_gl_full period) (combine (cd_gls c) (combine (cd_evfrac c) (cd_lotfrac c)))
+  ++ enc_list (fun x => t_row (g_ev (fst x)) :: enc_lot (g_lot (fst x)) ++ [snd x]) (combine (cd_all_gls c) (cd_gl_running c))
+  ++ enc_list enc_yline (cd_yearly c)
+  ++ enc_list enc_balance (cd_balances c)
+  ++ enc_dec (cd_price c)
+  ++ enc_list (fun a => i_row a :: enc_dec (i_fiat_in_no_fee a) ++ enc_dec (i_fiat_in_with_fee a) ++ enc_dec (i_fiat_fee a)) (cd_ins c)
+  ++ enc_list (fun x => let '(r, a, b) := x in [r; a; b]) (cd_in_running c)
+  ++ enc_list (fun a => o_row a :: enc_dec (o_fiat_out_no_fee a) ++ enc_dec (o_fiat_fee a) ++ [o_crypto_out_with_fee a]) (cd_outs c)
+  ++ enc_list (fun x => let '(r, a, b) := x in [r; a; b]) (cd_out_running c)
+  ++ enc_list (fun a => x_row a :: enc_dec (x_fiat_fee a) ++ [enc_bool (intra_is_taxable a)]) (cd_intras c)
+  ++ enc_list (fun x => [fst x; snd x]) (cd_intra_running c)
+  ++ enc_list (fun x => fst x :: enc_dec (snd x)) (cd_sold_pct c).
+
+Definition rd_str : rd str := rd_list rd_z.
+Definition rd_frac : rd fraction := fun s =>
+  match s with
+  | ev :: has :: lot :: amt :: t => Some ({| f_ev := ev; f_lot := if has =? 1 then Some lot else None; f_amt := amt |}, t)
+  | _ => None
+  end.
